@@ -935,12 +935,19 @@ where
 
         let file_id = data.get_file_by_id(file)?;
 
+        let volume_idx = data.get_volume_by_id(data.open_files[file_id].raw_volume)?;
+        // Clusters are also released without the handle becoming dirty (opening
+        // with truncation, deleting another file), so the information sector
+        // is brought up to date on every flush.
+        match &mut data.open_volumes[volume_idx].volume_type {
+            VolumeType::Fat(fat) => {
+                debug!("Updating FAT info sector");
+                fat.update_info_sector(&mut data.block_cache)?;
+            }
+        }
         if data.open_files[file_id].dirty {
-            let volume_idx = data.get_volume_by_id(data.open_files[file_id].raw_volume)?;
             match &mut data.open_volumes[volume_idx].volume_type {
                 VolumeType::Fat(fat) => {
-                    debug!("Updating FAT info sector");
-                    fat.update_info_sector(&mut data.block_cache)?;
                     debug!("Updating dir entry {:?}", data.open_files[file_id].entry);
                     if data.open_files[file_id].entry.size != 0 {
                         // If you have a length, you must have a cluster
